@@ -37,7 +37,12 @@ RULE = ('direct: 1-4 cal products from 1-2 streams (own channel counts and centr
         'categorical sensors, shuffled/duplicated corrprod pairs, random chunkings on all three axes, a second '
         'chunking and a random loaded subset; in half of the cases the REQUEST also names products without correction '
         'sensors (for all inputs or for some of the inputs in use) before / between / after the present ones and '
-        'repeated names, lenient (skip_missing_products) or strict; '
+        'repeated names, lenient (skip_missing_products) or strict; every direct case makes THREE calc_correction '
+        'calls (main chunking, second chunking, data chunked [1, B-1] / [2, 1, B-3] on the baseline axis) whose '
+        'corrections names (vs the model for the token, 32 hex digits, pairwise different), chunks and results are '
+        'compared, all nine corrected arrays also computed in ONE dask graph; kernels: the three apply_*_correction '
+        'kernels called directly on the corrections of the case with NaN as nan+nanj / nan+0j / 0+nanj / nan+1j / '
+        '1+nanj; '
         'sol: solutions (zero / NaN / inf / powers of two; constant, varying in time, a zero at one solution time, '
         'dead inputs and channels, holes, all invalid, none at all; with or without channel axis; 1-3 targets) '
         'through calc_gain_correction / calc_bandpass_correction / calc_delay_correction, calc_correction and the '
@@ -53,7 +58,9 @@ RULE = ('direct: 1-4 cal products from 1-2 streams (own channel counts and centr
         'the spec is evaluated on those over the products the REQUEST calls for; every sixth case has a multi-part B '
         'with a part lacking a solution another part has, every sixth is reopened with preselect on channels '
         '(+dumps), 60% of the rest with preselect (channels [a,b), dumps [a,b) or both), and compared with the fully '
-        'opened one on the same dumps/channels; invert: complex gains/delays/bandpasses, 75% also reopened with '
+        'opened one on the same dumps/channels; every v4 case with an applied product opens two more views of the '
+        'store (one product fewer; without the first dump) and computes the corrected arrays of all views in one '
+        'dask graph vs alone (flags only between views with the same preselection); invert: complex gains/delays/bandpasses, 75% also reopened with '
         'preselect.  A case is one configuration; non-trivial when at least one factor is finite and not 1 and '
         '(direct, v4) at least one factor is NaN or two products are combined; distinct by the whole configuration')
 ASSUMPTIONS = ['correction values are finite or NaN (infinite corrections are outside the model: inf*0 is NaN in IEEE); '
@@ -568,6 +575,10 @@ def run_direct_impl(cfg, fill=None):
         s, t = p['name'].split('.')
         for lab, per in zip(cfg['labels'], p['corr']):
             arr = np.array([[c_to_py(z) for z in g] for g in per], np.complex64)       # (T, cn)
+            # "not a number" = ANY component NaN (np.isnan of a complex): a third each nan+nanj, nan+0j, 0+nanj
+            nanpos = np.argwhere(np.isnan(arr))
+            for q, (a_, b_) in enumerate(nanpos):
+                arr[a_, b_] = [complex(np.nan, np.nan), complex(np.nan, 0.0), complex(0.0, np.nan)][q % 3]
             if p['form'] == 'array1d':
                 sensor = arr[:, 0].copy()
             elif p['form'] == 'categorical':
@@ -584,12 +595,15 @@ def run_direct_impl(cfg, fill=None):
     vis = np.array([[[c_to_py(z) for z in r] for r in t] for t in cfg['vis']], np.complex64)
     wts = np.array([[[w[0] / 2.0 ** w[1] for w in r] for r in t] for t in cfg['weights']], np.float32)
     fls = np.array(cfg['flags'], np.uint8)
-    out = {}
-    for key, chunks in (('main', cfg['chunks']), ('second', cfg['chunks2'] + [[B]])):
+    out = {'names': [], 'joint': []}
+    bsplit = [list(c) for c in cfg['chunks'][:2]] + [bl_split(B)]
+    for key, chunks in (('main', cfg['chunks']), ('second', cfg['chunks2'] + [[B]]), ('blsplit', bsplit)):
         chunks = tuple(tuple(c) for c in chunks)
         final, corr = calc_correction(chunks, cache, corrprods, list(names), data_freqs, cal_freqs,
                                       **(dict(skip_missing_products=True) if skip else {}))
         out['final'] = list(final)
+        if corr is not None:
+            out['names'].append((key, corr.name, [list(c) for c in chunks], [list(c) for c in corr.chunks]))
         res = {}
         for nm, kern, arr in (('vis', apply_vis_correction, vis), ('weights', apply_weights_correction, wts),
                               ('flags', apply_flags_correction, fls)):
@@ -598,15 +612,89 @@ def run_direct_impl(cfg, fill=None):
             res[nm] = da.core.elemwise(kern, darr, corr, dtype=arr.dtype) if corr is not None else darr
         if corr is None:
             corr = da.ones((T, F, B), chunks=chunks, dtype=np.complex64)
+        out['joint'].append((key, res))
         if key == 'main':
             out['corr'] = corr.compute(scheduler='synchronous')
             for nm in res:
                 out[nm] = res[nm].compute(scheduler='synchronous')
-        else:
+        elif key == 'second':
             ts, cs, bs = cfg['subset']
             for nm in res:
                 out['sub_' + nm] = res[nm][ts][:, cs][:, :, bs].compute(scheduler='synchronous')
+        else:
+            for nm in res:
+                out['bl_' + nm] = res[nm].compute(scheduler='synchronous')
+    # the arrays of the three calls evaluated in ONE dask graph (what dask.compute(a, b) / a store of several
+    # arrays does): dask merges tasks with equal keys, so every call must have named its corrections differently
+    try:
+        flat = [(key, nm, res[nm]) for key, res in out['joint'] for nm in ('vis', 'weights', 'flags')]
+        vals = da.compute(*[a for _, _, a in flat], scheduler='synchronous')
+        out['joint'] = {(key, nm): v for (key, nm, _), v in zip(flat, vals)}
+    except Exception as e:
+        out['joint'] = e
     return out
+
+
+def bl_split(B):
+    """a chunking of the baseline axis of the DATA that is not a single chunk (when there are 2+ corrprods)"""
+    return [B] if B < 2 else [1, B - 1] if B < 4 else [2, 1, B - 3]
+
+
+def codes(text):
+    return [ord(ch) for ch in text]
+
+
+def check_names(ctx, case, route, named, sig_extra=''):
+    """named: [(tag, name of the corrections array, products applied)] of the calc_correction calls of one case.
+    (1) tie: the name is the model's (Model/ApplycalName.v, wire 132 op 1) for the token it ends in;
+    (2) property over the history: no two calls share a name."""
+    seen = {}
+    for tag, name, final in named:
+        tok = name.rsplit('-', 1)[1] if '-' in name else ''
+        if ctx.model_ok:
+            mo = ctx.model([[132, [1, codes(tok), [codes(n) for n in final]]]])[0]
+            want = ''.join(chr(c) for c in mo[0]) if mo and mo != [-999] else None
+            if mo == [-999] and ctx.searching:
+                ctx.count('wire_132_not_in_driver_while_searching')     # the spec-side comparisons below still run
+            elif want != name:
+                ctx.disagree('route=%s;obs=corrections_name;vs=model;symptom=differs' % route + sig_extra, case, name,
+                             want, 'dask name of the corrections array differs from the model', kind='tie')
+        if tok and not (len(tok) == 32 and all(ch in '0123456789abcdef' for ch in tok)):
+            ctx.disagree('route=%s;obs=corrections_name;symptom=token_not_uuid_hex' % route + sig_extra, case, name,
+                         None, 'the per-call token is not 32 hex digits')
+        if name in seen:
+            ctx.disagree('route=%s;obs=corrections_name;symptom=shared_by_two_calls' % route + sig_extra, case,
+                         dict(name=name, calls=[seen[name], tag]), 'one name per calc_correction call',
+                         'two calc_correction calls (%s, %s) gave their corrections arrays the same dask name: '
+                         'computed in one graph they are one array' % (seen[name], tag))
+        seen[name] = tag
+        ctx.count('corrections_name_token=%s' % bool(tok))
+
+
+def run_kernels(ctx, cfg, impl, m):
+    from katdal.applycal import apply_flags_correction, apply_vis_correction, apply_weights_correction
+    corr = np.array(impl['corr'], np.complex64)
+    forms = [complex(np.nan, np.nan), complex(np.nan, 0.0), complex(0.0, np.nan), complex(np.nan, 1.0),
+             complex(1.0, np.nan)]
+    nanpos = np.argwhere(np.isnan(corr))
+    for q, ix in enumerate(nanpos):
+        corr[tuple(ix)] = forms[q % len(forms)]
+    vis = np.array([[[c_to_py(z) for z in r] for r in t] for t in cfg['vis']], np.complex64)
+    wts = np.array([[[w[0] / 2.0 ** w[1] for w in r] for r in t] for t in cfg['weights']], np.float32)
+    fls = np.array(cfg['flags'], np.uint8)
+    try:
+        got = dict(vis=apply_vis_correction(vis, corr), weights=apply_weights_correction(wts, corr),
+                   flags=apply_flags_correction(fls, corr))
+    except Exception as e:
+        ctx.disagree('route=kernels;symptom=raises;exc=%s' % type(e).__name__, cfg, repr(e)[:300], 'a result',
+                     'apply_*_correction(data, correction) raised')
+        return
+    compare(ctx, cfg, got, m, 'kernels')
+    if not np.array_equal(fls, np.array(cfg['flags'], np.uint8)):
+        ctx.disagree('route=kernels;obs=flags;symptom=input_modified', cfg, None, None,
+                     'apply_flags_correction modified its input array')
+    ctx.count('kernels_nan_forms=%d' % min(len(nanpos), len(forms)))
+    ctx.traces_validated += 1
 
 
 def features(cfg, m):
@@ -717,6 +805,44 @@ def run_direct(ctx, cfg, mo):
         if a.shape != b.shape or not np.all(eq):
             ctx.disagree('route=direct;obs=%s;symptom=chunking_or_subset_dependent' % nm, cfg, str(a.tolist())[:200],
                          str(b.tolist())[:200], 'second chunking + loaded subset differs from the full result')
+    # the three kernels called directly (public entry points apply_*_correction(data, correction)) on katdal's own
+    # corrections array in which "not a number" takes all forms np.isnan accepts: nan+nanj, nan+0j, 0+nanj, nan+1j,
+    # 1+nanj (through calc_correction only nan+nanj reaches them, as a product with NaN has both components NaN)
+    run_kernels(ctx, cfg, impl, m)
+    for nm in ('vis', 'weights', 'flags'):
+        a, b = impl['bl_' + nm], impl[nm]
+        if a.shape != b.shape or not np.all(same_c(a, b) if nm == 'vis' else a == b):
+            ctx.disagree('route=direct;obs=%s;symptom=baseline_chunking_dependent' % nm, cfg, str(a.tolist())[:200],
+                         str(b.tolist())[:200], 'data chunked on the baseline axis gives another result')
+    for key, name, dchunks, cchunks in impl['names']:
+        if ctx.model_ok:
+            mo = ctx.model([[132, [2] + dchunks]])[0]
+            if mo == [-999] and ctx.searching:
+                ctx.count('wire_132_not_in_driver_while_searching')
+            elif mo != cchunks:
+                ctx.disagree('route=direct;obs=corrections_chunks;vs=model;symptom=differs', cfg, cchunks, mo,
+                             'chunks of the corrections array differ from the model', kind='tie')
+        if cchunks[:2] != dchunks[:2] or len(cchunks[2]) != 1 or sum(cchunks[2]) != sum(dchunks[2]):
+            ctx.disagree('route=direct;obs=corrections_chunks;vs=spec;symptom=differs', cfg, cchunks, dchunks,
+                         'corrections array not chunked like the data in time and frequency / not one chunk of the '
+                         'same extent on the baseline axis')
+        ctx.count('direct_data_baseline_chunks=%d' % len(dchunks[2]))
+    check_names(ctx, cfg, 'direct', [(key, name, impl['final']) for key, name, _, _ in impl['names']])
+    if isinstance(impl['joint'], Exception):
+        ctx.disagree('route=direct;obs=joint_compute;symptom=raises;exc=%s' % type(impl['joint']).__name__, cfg,
+                     repr(impl['joint'])[:300], 'a result',
+                     'the corrected arrays of three calc_correction calls computed in one dask graph raised')
+    else:
+        single = {('main', nm): impl[nm] for nm in ('vis', 'weights', 'flags')}
+        single.update({('blsplit', nm): impl['bl_' + nm] for nm in ('vis', 'weights', 'flags')})
+        for (key, nm), b in single.items():
+            a = impl['joint'][(key, nm)]
+            if a.shape != b.shape or not np.all(same_c(a, b) if nm == 'vis' else a == b):
+                ctx.disagree('route=direct;obs=joint_compute;arr=%s;symptom=differs_from_separate_compute' % nm, cfg,
+                             str(a.tolist())[:200], str(b.tolist())[:200],
+                             'corrected %s of call %s computed in one dask graph with the other calls differs from '
+                             'computing it alone' % (nm, key))
+                break
     ctx.traces_validated += 1
     ctx.note_case(cfg_key(cfg), nontrivial=nontrivial(cfg, m),
                   sample=dict(route='direct', T=cfg['T'], F=len(cfg['data_freqs']), B=len(cfg['cps']),
@@ -1710,6 +1836,9 @@ def run_v4(ctx, vcfg):
         scfg, ms = _spec_on(ctx, cfg, want, wmask, read, want_names, cal_freqs)
         compare(ctx, cfg_with(vcfg, scfg), impl, _restrict(ms, ix, [(s1, s2)]), 'v4', sides=('spec',),
                 spec_name='spec_from_solutions', tag=shape_tag + (';' + req_tag if got_names != want_names else ''))
+        # (d) several views of one store in one dask graph
+        if got_names:
+            joint_views_v4(ctx, vcfg, x, got_names)
         # (c) the result does not depend on which subset is LOADED: the same store opened with preselect
         if pre:
             run_preselected(ctx, vcfg, x, inputs, bls, cal_freqs, freqs, (vis0, w0, f0), full, (want, wmask),
@@ -1744,6 +1873,72 @@ def run_v4(ctx, vcfg):
     finally:
         if x is not None:
             v4.cleanup(x)
+
+
+def _corr_names(d):
+    """names of the corrections arrays in the dask graph of a data set's corrected visibilities"""
+    g = d.vis.dataset.__dask_graph__()
+    layers = getattr(g, 'layers', None)
+    keys = list(layers) if layers is not None else [k[0] if isinstance(k, tuple) else k for k in g]
+    return sorted({k for k in keys if isinstance(k, str) and k.startswith('corrections')})
+
+
+def check_joint_views(ctx, vcfg, route, views):
+    """views: [(tag, data set)] opened from ONE store with applycal (other products / other preselection).  Their
+    corrected arrays computed in one dask graph must equal those computed alone, and no two views may share the
+    name of a corrections array (dask merges tasks with equal names)."""
+    import dask.array as da
+    tags = '+'.join(t for t, _ in views)
+    named = []
+    for tag, d in views:
+        for name in _corr_names(d):
+            named.append((tag, name, list(d.applycal_products)))
+    check_names(ctx, vcfg, route, named, ';views=' + tags)
+    # flags of views with DIFFERENT preselections are left out: ChunkStoreVisFlagsWeights names its data-lost layer
+    # '<prefix>/flags_raw' whatever the preselection (vis_flags_weights.py, outside this property's code; reported),
+    # so they collide in one graph with or without applycal.  Flags of views with the same preselection, and vis /
+    # weights of all views, are compared.
+    arrays = [(tag, nm, getattr(d, nm).dataset) for tag, d in views for nm in ('vis', 'weights', 'flags')
+              if nm != 'flags' or tag in ('full', 'fewer_products')]
+    if any(tag not in ('full', 'fewer_products') for tag, _ in views):
+        ctx.count('joint_flags_left_out_for_other_preselection(flags_raw_name)')
+    alone = [a.compute(scheduler='synchronous') for _, _, a in arrays]
+    try:
+        joint = da.compute(*[a for _, _, a in arrays], scheduler='synchronous')
+    except Exception as e:
+        ctx.disagree('route=%s;obs=joint_compute;views=%s;symptom=raises;exc=%s' % (route, tags, type(e).__name__),
+                     vcfg, repr(e)[:300], 'a result', 'corrected arrays of two views computed in one dask graph raised')
+        return
+    for (tag, nm, _), a, b in zip(arrays, joint, alone):
+        if a.shape != b.shape or not np.all(same_c(a, b) if nm == 'vis' else a == b):
+            at = tuple(int(v) for v in np.argwhere(~(same_c(a, b) if nm == 'vis' else a == b))[0]) \
+                if a.shape == b.shape else None
+            ctx.disagree('route=%s;obs=joint_compute;views=%s;arr=%s;symptom=differs_from_separate_compute'
+                         % (route, tags, nm), vcfg, dict(view=tag, at=at, value=str(a[at]) if at else list(a.shape)),
+                         dict(view=tag, at=at, value=str(b[at]) if at else list(b.shape)),
+                         '%s of view %s computed in one dask graph with the other view(s) differs from computing it '
+                         'alone' % (nm, tag))
+            break
+    ctx.count('joint_views=' + tags)
+    ctx.traces_validated += 1
+
+
+def joint_views_v4(ctx, vcfg, x, got_names):
+    """the fully opened data set + the same store with fewer products / without its first dump"""
+    views = [('full', x.d)]
+    T = vcfg['T']
+    if len(got_names) >= 2:
+        try:
+            views.append(('fewer_products', _open_public(x, applycal=list(got_names[:-1]))))
+        except Exception:
+            ctx.count('joint_view_not_opened=fewer_products')
+    if T >= 2:
+        try:
+            views.append(('dumps_from_1', _open_public(x, applycal=list(got_names), preselect=dict(dumps=slice(1, T)))))
+        except Exception:
+            ctx.count('joint_view_not_opened=dumps_from_1')     # e.g. a K / B product without a solution it can see
+    if len(views) > 1:
+        check_joint_views(ctx, vcfg, 'v4', views)
 
 
 def run_preselected(ctx, vcfg, x, inputs, bls, cal_freqs, freqs, stored, full, want_full, shape_tag, want_names,
@@ -1880,6 +2075,14 @@ def run_invert(ctx, vcfg):
                          dict(at=at, value=str(got[at]) if at else None, products=list(x.d.applycal_products)),
                          dict(at=at, value=str(clean[at]) if at else None),
                          'data corrupted by known gains are not restored within %g relative' % REL_TOL)
+        # the stated bound of C13_restored_within_rounding: |got - clean| <= ((1 + eps)^n - 1) * |clean| with
+        # eps = 2^-22 per rounded complex64 operation and n = 4 * #products + 3 rounding steps (reciprocal and running
+        # product per input and product, g1 * conj(g2), data * c, the stored value).  Recorded in the evidence; the
+        # pass / fail tolerance above is the wider one (the solutions in telstate are themselves rounded).
+        n_steps = 4 * len(vcfg['applycal']) + 3
+        bound = float((1 + Fraction(1, 2 ** 22)) ** n_steps - 1)
+        ctx.count('invert_within_theorem_bound(eps=2^-22,n=4P+3)=%s'
+                  % bool(np.all(np.abs(got - clean) <= bound * np.abs(clean))))
         pre = vcfg.get('preselect') or {}
         if pre:
             t0, t1 = pre.get('dumps', [0, T])
